@@ -14,13 +14,26 @@ RULE = ("Generated histories over a pool of meshes, each shadowed by a model (co
         "combinations), boundary extraction (surface and volume), subdivision results. Operations: translate, rotate (matrix / "
         "Euler / Rotation, with origin), scale, scale_xyz, normalize, fit_into_unit_cube, translate_to_origin, flatten, "
         "inverse round trips, in-place and rebinding coordinate edits, vertex append, attribute writes, connectivity queries. "
+        "Options and scalar arguments are spelled the ways callers spell them: boolean options (normalize's center_at_zero, copy's "
+        "copy_attributes / copy_connectivity) as the Python singleton, a numpy.bool_ (result of a numpy comparison), 0 / 1, each "
+        "positionally or by keyword, or left out (default); scale factors as float / int / numpy.float64; flatten's axis as int / "
+        "numpy.int64; Euler angles as list or tuple. Attributes (5 kinds: float / int / bool scalars, float 2- and 3-vectors, sparse "
+        "and dense storage) are created, written, edited in place (component of a stored vector) and deleted on ANY container of a "
+        "mesh - vertices, edges, faces, cells and the corner containers face_corners, cell_corners, cell_faces - and are part of the "
+        "model: a copy made with copy_attributes carries all of them with equal values, a copy made without carries none, and no later "
+        "attribute operation on one mesh may show on another one. 'copy scenarios' (attribute writes, copy, then an attribute / "
+        "element-record / coordinate edit of the copy or of its source) make edits right after a copy frequent. "
         "After EVERY step every mesh of the pool must equal its model (bit-for-bit when it was not the target); every produced mesh's "
         "corner / cell-face records must list its own elements; element lists handed out by a copy are edited in place and the "
         "source's lists re-read. non-trivial = "
         "the history applies a transform or edit to a mesh derived from (or source of) another mesh still in the pool; "
         "distinct = distinct histories.")
 ASSUMPTIONS = ["normalize is only applied to meshes with non-zero extent", "rotation parameters are finite; scale factors in [0.1, 10]",
-               "after a subdivision the source object is dropped from the pool (C13 covers its state)"]
+               "after a subdivision the source object is dropped from the pool (C13 covers its state)",
+               "truthy / falsy option values are limited to bool, numpy.bool_ and the integers 1 / 0; integer scale factors are the integral ones of the factor list",
+               "generated attributes are not modelled on loaded meshes and subdivision results (and their copies); merge and boundary extraction are "
+               "not assumed to carry or to drop attributes (only that attribute operations on their result never show on their inputs)",
+               "a copy made without copy_attributes carries no attribute (docstring of mesh.copy)"]
 
 TOL = 1e-11   # relative to max(1e-30, largest model coordinate), see verify()
 
@@ -88,7 +101,7 @@ def history(draw):
             choices += ["merge", "copy", "copy", "boundary", "load", "subdiv", "translate", "translate", "rotate", "scale", "scale_xyz",
                         "normalize", "fit", "to_origin", "flatten", "edit_inplace", "edit_rebind", "append_vertex", "attr_write",
                         "query", "roundtrip", "translate", "merge", "add_face", "add_face", "rotate_record", "rotate_record", "bad_call",
-                        "attr_any", "attr_any", "attr_scenario", "attr_scenario"]
+                        "attr_any", "attr_any", "copy_scenario", "copy_scenario"]
         op = draw(st.sampled_from(choices))
         i = draw(st.integers(0, 50))
         if op == "build":
@@ -104,15 +117,24 @@ def history(draw):
             ops.append([op, i, draw(st.booleans()), draw(st.booleans()), draw(st.sampled_from([0, 0, 1, 2, 3])), draw(flagform)]); n_pool += 1
         elif op == "attr_any":
             ops.append(draw(attr_op(i)))
-        elif op == "attr_scenario":
-            # an attribute is written on a mesh, the mesh is copied WITH its attributes, then the attribute is written / edited in place /
-            # deleted on the copy (-1 = newest mesh of the pool) or on the source (-2 = source of the latest copy)
+        elif op == "copy_scenario":
+            # attributes are written on a mesh, the mesh is copied, then the copy (-1 = newest mesh of the pool) or the source (-2 = source
+            # of the latest copy) is edited: an attribute is written / edited in place / deleted, an element record or a vertex is
+            # edited in place
+            with_attr = draw(st.sampled_from([True, True, False]))
             ops.append(draw(attr_op(i, reuse=draw(st.sampled_from([False, False, True])), mode="write")))
             if draw(st.booleans()):
                 ops.append(draw(attr_op(i, reuse=False, mode="write")))
-            ops.append(["copy", i, True, draw(st.booleans()), 0, draw(flagform)]); n_pool += 1
+            ops.append(["copy", i, with_attr, draw(st.booleans()), 0, draw(flagform)]); n_pool += 1
             for _ in range(draw(st.integers(1, 2))):
-                ops.append(draw(attr_op(draw(st.sampled_from([-1, -2])), reuse=True)))
+                j = draw(st.sampled_from([-1, -2]))
+                what = draw(st.sampled_from(["attr", "attr", "record", "vertex"] if with_attr else ["attr", "record", "record", "vertex"]))
+                if what == "attr":
+                    ops.append(draw(attr_op(j, reuse=True)))
+                elif what == "record":
+                    ops.append(["rotate_record", j, draw(st.integers(0, 50)), "faces"])
+                else:
+                    ops.append(["edit_inplace", j, draw(st.integers(0, 50)), draw(st.integers(0, 2)), draw(small)])
         elif op == "boundary":
             ops.append([op, i, draw(st.booleans())]); n_pool += 1
         elif op == "load":
@@ -854,6 +876,9 @@ def fn(case, ctx):
                     if not ok: continue
                 vals = mdl0.attrs[(cont, tag)]
                 e = idx % len(c)
+                if mode == "inplace" and nval > 1 and not dense and vals:
+                    e = sorted(vals)[idx % len(vals)]       # a sparse attribute stores a vector only where one was written
+                    if e >= len(c): e = idx % len(c)
                 d = attr_default(tag)
                 if mode == "delete":
                     ok, _ = ctx.call("op:delete_attribute", c.delete_attribute, name)
